@@ -20,7 +20,7 @@ CFG = {
                        "qeSignerDoc", "qeOver", "qeExtra", "qeHdr", "qeMeta", "qeContent", "sharedSigner"], optset="levels", now=["set"]),
     "C04": dict(focus=["tcbContent", "modBranch", "tcbExtra", "sgxOrder"], optset="levels", now=["set"]),
     "C05": dict(focus=["pckCrlRev", "rootCrlRev", "pckCrlSigner", "rootCrlSigner", "pckCrlFetch", "rootCrlDps", "serials", "sharedSigner", "pool", "crlShape"], optset="all", now=["set"]),
-    "C06": dict(focus=["time", "sharedSigner"], optset="levels", now=["set"]),
+    "C06": dict(focus=["time", "sharedSigner", "crlChain"], optset="levels", now=["set"]),
     "C07": dict(focus=["qeContent", "qeExtra"], optset="levels", now=["set"]),
     "C11": dict(focus=["authLen", "extra", "trailer", "tcbContent", "modBranch", "qeContent", "pckCrlRev", "rootCrlRev", "rootCrlDps", "leafId", "serials", "sigShape", "sgxOrder", "sgxValues", "tcbHdr", "crlShape", "sharedSigner", "src", "pool"],
                 optset="levels", now=["set", "unset"]),
